@@ -13,7 +13,8 @@ THEOREMS = ["remembered_only_if", "supported_implies_parse", "store_bounded", "e
             "dial_result_rescores_used_address", "rediscovery_keeps_score", "dial_order",
             "listen_address_roundtrip", "listener_binds_only_sockets", "reported_dialable_and_local", "local_dial_sound",
             "lookup_respects_dns_type", "public_addresses_name_local", "handle_dial_guarded",
-            "dial_failure_rescored_in_every_state"]
+            "dial_failure_rescored_in_every_state", "endpoint_address_is_dialed_address",
+            "established_dial_scores_dialed_address"]
 CONSTS = ["ADDR_MAX_ADDRESSES", "ADDR_CONNECTION_ESTABLISHED", "ADDR_CONNECTION_FAILURE_NEG",
           "ADDR_PUBLIC_ADDRESS_BONUS", "ADDR_FAILURE_IS_I32_MIN"]
 _A = "src/transport/manager/address.rs"
@@ -47,7 +48,14 @@ MANIFEST = {
             "simultaneous-dial race, Disconnected with a dial record, Opening) a DialFailure re-scores exactly the failed address to "
             "error_score(e) and touches no other record, for EVERY manager state; manager-level histories (c05 area: the real "
             "TransportManager behind a scripted transport) run as extra cases with the address store printed before and after every "
-            "dial outcome, judged by an oracle on the scores (not-rescored / other-address-rescored).",
+            "dial outcome, judged by an oracle on the scores (not-rescored / other-address-rescored). Round tcp3: the address a "
+            "successful dial is credited to is the one the TCP TRANSPORT reports (endpoint address rebuilt by "
+            "TcpConnection::negotiate_connection from the parsed AddressType): endpoint_address_is_dialed_address (every host kind "
+            "ip4/ip6/dns/dns4/dns6, with or without /p2p, through dial and open: endpoint address = dialed /host/tcp/port) and "
+            "established_dial_scores_dialed_address (the record scored CONNECTION_ESTABLISHED is the dialed multiaddress) over the "
+            "transport model Model/Noise/Identity.lean; tied by the c01 area's `tp` op (two real TcpTransports; endpoint address "
+            "printed next to the dialed one) and by real nodes dialing /dns|dns4|dns6/localhost/tcp/<listening port> successfully "
+            "with the address book compared before and after (phantom-address / success-not-credited / bystander-rescored).",
     "note": "Trusted: Lean kernel; axioms propext/Classical.choice/Quot.sound; the hand-written model and its tie (sampled "
             "differential runs through src/verif/c10.rs); multiaddr text parsing and IpNetwork::is_global outside the model "
             "(attributes are data); PeerState reduced to Disconnected/Opening/Dialing in the c10 area — the score updates of the "
@@ -68,7 +76,9 @@ RULE = ("seeded operation histories (cfg tcp/maxout/cap; listen; supported/parse
         "one refused or evicted; distinct = distinct (ops, observations) transcripts by SHA-256; plus ~220 manager-level "
         "histories in the c05 area (scripted shapes: dial outcome arriving in Dialing / Opening / Connected~Dialing (race) / "
         "Disconnected-with-record / Connected+secondary, failure kinds t/a/n, open failures with partial error lists; and "
-        "closed-loop random histories) with `scores <peer>` around every outcome")
+        "closed-loop random histories) with `scores <peer>` around every outcome; 10 `tp` operations (c01 area: open/dial x 5 host "
+        "kinds); 13 `dnsdial` node cases (real nodes, /dns*/localhost towards the other node's listening port, by address and "
+        "by peer id)")
 TRUSTED_BASE = ["Lean 4.33 kernel", "axioms: propext, Classical.choice, Quot.sound only",
                 "hand-written models Model/Addr/*.lean tied to handle.rs/address.rs/mod.rs/listener.rs by this correspondence run",
                 "adapter /repo/src/verif/c10.rs, harness, verif.py, checks/c10.py, Driver/C10.lean (address text parser, "
@@ -84,7 +94,11 @@ TRUSTED_BASE = ["Lean 4.33 kernel", "axioms: propext, Classical.choice, Quot.sou
 ASSUMPTIONS = ["listen addresses are registered before addresses are learned (remembered_only_if is stated for a fixed "
                "listen set)",
                "dial results reported by the TCP transport concern addresses handed to it by dial(peer) "
-               "(DialFailure/OpenFailure carry the dialed address, ConnectionOpened/Established carry ip|dns + tcp of it)",
+               "(DialFailure/OpenFailure carry the dialed address; ConnectionOpened/Established carry host + tcp of it: modelled and "
+               "proved since round tcp3 for the host KIND — name and port are copied verbatim by the code and compared by the `tp` op "
+               "and the node-level oracle, not modelled)",
+               "`localhost` resolves to 127.0.0.1 without network (hickory reads the hosts file); when it does not, the dial fails and "
+               "is judged as a failure of the dialed address",
                "PeerState beyond Disconnected/Opening/Dialing is outside the c10 area; the re-scoring in those states is checked "
                "in the c05 area (extra cases) while the scripted transport keeps the Transport contract",
                "local_addr() of a socket bound to (ip, p) is (ip, p') (p' = p unless p = 0); no interface address is the "
@@ -1007,17 +1021,32 @@ def nontrivial(case, out):
 # connection, ...): those histories run in the c05 area (the real TransportManager behind a scripted transport, model
 # Model/Manager/Dial.lean) with `scores <p>` around every outcome, judged by `mgr_common.oracle_scores`.
 def extra_cases(rng, tier):
-    from . import mgr_common
+    from . import mgr_common, c01
     yield "C05", list(mgr_common.gen_score_cases(rng, tier))
+    # The address the manager scores on ConnectionEstablished is the one the TRANSPORT reports: the c01 area's `tp` op dials
+    # through two real TcpTransports (open / dial x every host kind) and prints the endpoint address next to the dialed one.
+    ops = [f"tp via={via} host={host} d={d} l={l} exp={e}"
+           for via in ("open", "dial") for host in c01.HOSTS
+           for (d, l) in [tuple(rng.sample(range(8), 2))] for e in [rng.choice([l, "none"])]]
+    if tier == "thorough":
+        ops = ops * 3
+    yield "C01", c01.chunks(ops, 5)
 
 
 def oracle_extra(xpid, case, out):
-    from . import mgr_common
+    from . import mgr_common, c01
+    if xpid == "C01":
+        res = []
+        for i in range(min(len(case), len(out))):
+            res += c01.tp_endpoint_oracle(case, out, i)
+        return [dict(v, msg="(real TcpTransports, c01 area) " + v["msg"]) for v in res]
     return [dict(v, msg="(real TransportManager, c05 area) " + v["msg"]) for v in mgr_common.oracle_scores(case, out)]
 
 
 def stats_extra(xpid, case, out, acc):
-    from . import mgr_common
+    from . import mgr_common, c01
+    if xpid == "C01":
+        return c01.stats(case, out, acc)
     mgr_common.stats_scores(case, out, acc)
 
 
